@@ -451,6 +451,10 @@ class Compiler(object):
                 if resolved_member['type'] == 'OCTET STRING':
                     self.pre_process_default_value_octet_string(member)
 
+                if resolved_member['type'] == 'BOOLEAN':
+                    if member['default'] in ['TRUE', 'FALSE']:
+                        member['default'] = (member['default'] == 'TRUE')
+
                 if resolved_member['type'] == 'ENUMERATED' and self._numeric_enums:
                     for key, value in resolved_member['values']:
                         if key == member['default']:
